@@ -103,6 +103,20 @@ func (fx *fexec) staticCall(x *ssa.Call, f *ssa.Function, args []Val, bind []Val
 		}
 		v := Val{Ty: rt, T: vc.define(x.Name(), t)}
 		vc.assert(vc.typeInv(v.T, rt, st.alloc))
+		if c.PanicsIff != nil {
+			sc := &SpecCtx{vc: vc, vars: paramVars(body, args), st: st, old: st, pkg: body.Pkg.Pkg}
+			fx.panicPoint(st, sc.evalBool(c.PanicsIff.X), "callpanic", c.Name+" panics iff "+c.PanicsIff.Src, pos)
+		}
+		// the (verified) postconditions also hold of the uninterpreted result
+		post := &SpecCtx{vc: vc, vars: paramVars(body, args), st: st, old: st, pkg: body.Pkg.Pkg, base: st.alloc}
+		for _, ns := range resultNames(body.Signature) {
+			for _, n := range ns {
+				post.vars[n] = v
+			}
+		}
+		for _, e := range c.Ensures {
+			vc.assume(st, post.evalBool(e.X))
+		}
 		return v
 	}
 	if c != nil && !c.Inline {
@@ -184,11 +198,22 @@ func (fx *fexec) applyContractSig(c *Contract, sig *types.Signature, vars map[st
 	vc := fx.vc
 	pre := st.clone()
 	sc := &SpecCtx{vc: vc, vars: vars, st: pre, old: pre, pkg: pkg}
-	if (c.Arith == "bv") != vc.bv || (c.Arith == "mixed") != vc.mixed {
+	// `int` and `mixed` agree on signed integers (mathematical) and differ only in the
+	// sort of unsigned ones; a contract is evaluated in the caller's mode, so the two
+	// may call each other (a clause the caller's mode cannot express fails loudly).
+	if (c.Arith == "bv") != vc.bv {
 		panic(engErr("callee " + c.Key() + " uses a different arithmetic mode"))
 	}
 	for i, r := range c.Requires {
 		o := vc.oblige(st, "pre@call", fmt.Sprintf("%s requires #%d: %s", c.Name, i+1, r.Src), sc.evalBool(r.X))
+		o.Pos = pos
+	}
+	if c == vc.contract && c.Decreases != nil && vc.entryVars != nil {
+		// recursive call: the termination measure is bounded below and strictly decreases
+		esc := &SpecCtx{vc: vc, vars: vc.entryVars, st: vc.entry, old: vc.entry, pkg: pkg}
+		m0 := vc.toInt(esc.eval(c.Decreases.X))
+		m1 := vc.toInt(sc.eval(c.Decreases.X))
+		o := vc.oblige(st, "decreases", "recursive call: measure "+c.Decreases.Src+" is non-negative and strictly smaller", and(ge(m1, intLit(0)), lt(m1, m0)))
 		o.Pos = pos
 	}
 	if c.PanicsIff != nil {
